@@ -10,6 +10,7 @@ I/A/O shapes for SMALL cases (container forms, aliased clause objects, option co
 """
 from __future__ import annotations
 
+import os
 import copy
 import itertools
 
@@ -200,7 +201,9 @@ def work_instances(rng, big):
     for _ in range(4 if big else 1):
         n = rng.choice([250, 300])
         cl, ref = inst_planted(rng, n, rng.choice([4.0, 4.1, 4.2]))
-        W.append(dict(fam=f"interval-planted{n}", clauses=cl, ref=ref, guard=300, opts={"luby_factor": huge(), "max_conflicts": 10**7}))
+        W.append(dict(fam=f"interval-planted{n}", clauses=cl, ref=ref, guard=300, opts={"luby_factor": huge(), "max_conflicts": 20000}))  # without restarts a planted
+        # instance near the threshold can need > 10^5 conflicts (seed 7: not finished after 300 s - our false alarm); the budget bounds the work, crossing
+        # 5001 and 10^4 conflicts in one restart interval is still reached, and MAX_ITER at the budget is an accepted answer
     W.append(dict(fam="interval-php8_7", clauses=SC.pigeonhole(7), unsat=True, guard=300, opts={"luby_factor": huge()}))
     # -- restarts >= 2^10 (luby_factor 1) and learned clauses >= 10^4 with many reduce_db rounds
     cl, ref = inst_guarded_php(rng, 7)
@@ -227,7 +230,35 @@ def run_heavy_one(item):
     case = item_case(item)
     cl = item["clauses"]
     snapshot = copy.deepcopy(cl)
-    out = SC.run_impl(case, item["guard"], clauses_obj=cl, assumptions_obj=list(item.get("assumptions", [])) or None)
+    # broken tree (the small-case engine has already seen >= 5 calls that do not return, SC.BROKEN_FLAG exists): the violation is
+    # established; do not spend 300 CPU-seconds on each remaining heavy instance
+    def engine_state(wait=0.0):
+        """'ok' | 'broken' as written by SC.run_engine after its first batch of small cases (>= 5 of them not returning = broken tree:
+        the violation is established, long guards are not worth their time); None while that batch is still running"""
+        import time as _t
+
+        t_end = _t.time() + wait
+        while True:
+            try:
+                v = open(SC.BROKEN_FLAG).read().strip() if SC.BROKEN_FLAG else "ok"
+                if v:
+                    return v
+            except OSError:
+                pass
+            if _t.time() >= t_end:
+                return None
+            _t.sleep(1.0)
+
+    # first 25 CPU-seconds (the slowest instance needs ~17 on the unchanged tree); if that expires the worker waits for the engine's
+    # verdict on the tree and repeats the call on a fresh copy with the full guard only when the tree is not evidently broken
+    first = 10 if engine_state() == "broken" else min(25, item["guard"])
+    # (run_impl takes max(timeout, case["timeout"]): the first attempt runs on a copy of the case record with the short guard)
+    out = SC.run_impl(dict(case, timeout=first), first, clauses_obj=cl, assumptions_obj=list(item.get("assumptions", [])) or None)
+    if out["outcome"] == "hang" and first < item["guard"] and engine_state(wait=600) != "broken":
+        cl = copy.deepcopy(snapshot)
+        item = dict(item, clauses=cl)
+        case = item_case(item)
+        out = SC.run_impl(case, item["guard"], clauses_obj=cl, assumptions_obj=list(item.get("assumptions", [])) or None)
     learns = sum(1 for e in out["trace"] if e[0] == "learn" and not e[2])
     out["learns"] = learns
     out["blocking"] = sum(1 for e in out["trace"] if e[0] == "learn" and e[2])
@@ -315,6 +346,7 @@ def start_heavy(ctx: Ctx, pid: str):
     import multiprocessing as mp
 
     big = ctx.tier == "thorough"
+    SC.BROKEN_FLAG = str(ctx.casedir) + ".broken_tree"  # set before the fork so the workers know where to look
     items = [as_item(t) for t in heavy_instances(ctx.rng, big)] + work_instances(ctx.rng, big)
     for it in items:  # the construction itself is checked: the reference assignment is a model
         ref = it.get("ref")
@@ -331,6 +363,9 @@ def finish_heavy(ctx: Ctx, pid: str, handle):
         outs = pending.get(timeout=1800)
     finally:
         pool.terminate()
+        if SC.BROKEN_FLAG and os.path.exists(SC.BROKEN_FLAG):
+            os.unlink(SC.BROKEN_FLAG)
+        SC.BROKEN_FLAG = None
     wmax = ctx.extra.setdefault("work_volume_max", {})
 
     def bump(key, val):
@@ -391,7 +426,7 @@ def canon_out(out):
 def run_sequences(ctx: Ctx, pid: str):
     """answers must not depend on earlier calls; a shared input object passed to consecutive calls is not modified"""
     rng = ctx.rng
-    n_cases = ctx.budget(60, 400)
+    n_cases = ctx.budget(60, 400) if not ctx.extra.get("broken_tree_hangs") else 3
     for _ in range(n_cases):
         case = SC.gen_case(rng, False)
         if not SC.valid_input(case) or not case["clauses"]:
@@ -503,5 +538,9 @@ def corner_cases(rng, n):
         kw["max_restarts"] = rng.choice([0, 1, 2, 9_999, 10_000, 10_001])
         kw["luby_factor"] = rng.choice([0, 1, 2, 3, 99, 100, 101])
         case["family"] = "corner"
+        if kw["luby_factor"] == 0 and kw["max_restarts"] > 100 and kw["max_conflicts"] > 100:
+            # every conflict restarts (and reduce_db runs at restarts), so an unsatisfiable formula can legitimately use all ~10^4 restarts
+            # before MAX_ITER: ~40 CPU-seconds, bounded by the budgets - not a hang (seed 7 reported it under the 5 s guard: our false alarm)
+            case["timeout"] = 150
         out.append(case)
     return out
